@@ -200,7 +200,65 @@ def check_state(ctx, d, ds, by_str, case):
                 viol('projection-views', {'K': K, 'route': route, 'why': b4})
             elif abstract_of(sp, by_str) != want_p:
                 viol('projection-wrong', {'K': K, 'route': route, 'got': abstract_of(sp, by_str)}, want_p)
+    # building a Consensus from the dataset's own rankings (no dataset attached) must not disturb their views
+    try:
+        from corankco.consensus import Consensus
+        ctx.evals += 1
+        try:
+            cons = Consensus(list(d.rankings))
+            cons.nb_elements, cons.elements, str(cons), cons.description()
+        except Exception:
+            # building a multi-ranking Consensus by hand is not one of the properties (it fails today when an
+            # element first appears in a ranking whose index is >= the number of elements); only its effect on the
+            # rankings is judged
+            ctx.count('consensus_from_rankings_not_constructible')
+        bad = dataset_views(d)
+        if bad:
+            viol('views-changed-by-building-a-consensus-from-the-rankings', bad)
+        if abstract_of(d, by_str) != ds:
+            viol('dataset-changed-by-building-a-consensus-from-the-rankings', abstract_of(d, by_str), ds)
+    except Exception as e:
+        viol('consensus-from-rankings-raises', exc=e)
     return ok
+
+
+def check_outside_projections(ctx, d, ds, ds0, labels, by_str, case):
+    """projection on a kept set chosen BEFORE the removals: it may contain elements that are no longer in the
+    dataset; the result is the projection on the part that still is (an empty result is the documented exception)."""
+    from ..lib import dataset_views
+    E = _lib['E']
+    uni0 = spaces.universe_of(ds0)
+    uni = set(spaces.universe_of(ds))
+    cur = {by_str[str(e.value)]: e for r in d.rankings for b in r.buckets for e in b}
+    typ = next(iter(cur.values())).type if cur else str
+    for K in spaces.subsets(uni0, 1):
+        if set(K) <= uni:
+            continue
+        keep = set()
+        for x in K:
+            keep.add(cur[x] if x in cur else E(typ(labels[x])) if (typ is str or str(labels[x]).isdigit()) else E(str(labels[x])))
+        want = tuple(refmodel.canon(r) for r in refmodel.project(ds, set(K) & uni))
+        ctx.evals += 1
+        try:
+            sp = d.sub_problem_from_elements(keep)
+        except _lib['Empty']:
+            if len(want) > 0:
+                ctx.violation('projection-raises', dict(case, K=K), 'EmptyDatasetException', want)
+            continue
+        except Exception as e:
+            ctx.violation('projection-raises', dict(case, K=K), None, want, exc=e)
+            continue
+        try:
+            bad = dataset_views(sp)
+            got = abstract_of(sp, by_str)
+        except Exception as e:
+            ctx.violation('projection-views', dict(case, K=K), None, want, exc=e)
+            continue
+        if bad:
+            ctx.violation('projection-views', dict(case, K=K), bad, None)
+        elif got != want:
+            ctx.violation('projection-wrong', dict(case, K=K, route='kept set chosen before the removal'), got, want)
+        ctx.count('projections_on_kept_sets_reaching_outside_the_universe')
 
 
 def fresh_path():
@@ -319,6 +377,7 @@ def explore_from(ctx, ds0, lname, n, only_history=None):
                 seen.add(got)
                 nstates += 1
                 check_state(ctx, d, got, by_str, case)
+                check_outside_projections(ctx, d, got, ds0, labels, by_str, case)
                 frontier.append(hist + [ev])
             else:
                 # already-known state reached by another path: views must hold here too (differential)
